@@ -114,6 +114,8 @@ def compare_iso(sc, solos, sess, prop):
             continue
         for i, (a, b) in enumerate(zip(so, se)):
             kind = a["kind"]
+            if b.get("abandoned"):
+                continue        # the client gave this read-only operation up after an injected fault: nothing to compare
             if prop == "C09" and kind not in FILL_OPS and kind != "calc.new":
                 continue
             if shared and kind in ("cli.extract", "cli.geotherm"):
@@ -551,7 +553,11 @@ class Aggregate:
                 "samples": self.samples,
                 "simulated_runs": done, "parts_executed": self.parts, "operations_executed": self.ops, "operation_attempts": self.attempts,
                 "runs_per_hour": round(runs_per_hour), "seeds": f"derive_seed({chk.base_seed}, j) for j < {chk.n}",
-                "simulated_time": "none: cij reads no clock; the simulator's time is its global event sequence number; events logged: %d" % self.events,
+                "simulated_time": ("cij reads no clock; the simulator's time is its global event sequence number (events logged: %d). The one clock-like thing a "
+                                   "change to cij could read -- file timestamps -- is simulated: the sessions advanced that clock %d times, %d simulated seconds "
+                                   "forward in total, and stepped it back %d times; %d stat results carried simulated timestamps")
+                                  % (self.events, self.seam.get("clock_advanced", 0), self.seam.get("clock_seconds_forward", 0), self.seam.get("clock_steps_back", 0),
+                                     self.seam.get("stat_retimed", 0)),
                 "line_events_stepped": self.line_events, "line_level_switches": self.switches,
                 "faults": {"planned": self.faults_planned, "fired_by_kind": self.faults_fired, "fired_by_site": self.fault_sites},
                 "perturbations": self.seam, "hash_seeds_session": self.hash_seeds,
